@@ -2,21 +2,24 @@
 From Coq Require Import List ZArith NArith Bool Lia.
 From RecordUpdate Require Import RecordSet.
 From PC.Base Require Import Assoc.
-From PC.Sup Require Import Model Monitors Tactics Sim ObsFacts Effects RelCore LemC12 LemC12Inst LemC12Obs.
+From PC.Sup Require Import Model Monitors Tactics Sim ObsFacts Effects RelCore LemC12 LemC12Inst LemC12Obs LemC12Obs3.
 Import ListNotations RecordSetNotations.
 
-(* per-instance agreement; f is the value of F2 of the observer state *)
+(* an instance that a stop found Pending and ended: its run context is cancelled, and (outside the commit window)
+   it has never been launched and is not committed to launching - it can then never launch *)
+Definition Q (f : bool) (x : inst) : Prop :=
+  l_runctx x = true /\ (f = false -> launches x = 0 /\ cmt_pc (pc x) = false).
+
+(* per-instance agreement; f is the value of w_commit of the observer state *)
 Record PI (f : bool) (x : inst) (xo : oinst) : Prop := mkPI {
   pi_alive : o_alive xo = alive x;
   pi_commit : cmt_pc (pc x) = true -> o_commit xo = true;
-  pi_stop : f = false -> o_stopreq xo = true -> cmt_pc (pc x) = false;
-  pi_done : l_done x = true -> ended_pc (pc x) = true \/ (o_stopreq xo = true /\ (f = false -> launches x = 0));
+  pi_done : l_done x = true -> ended_pc (pc x) = true \/ Q f x;
   pi_live : live_pc (pc x) = true -> launches x <> 0
 }.
 
 Definition PIstep (f f' : bool) (x x' : inst) (xo xo' : oinst) : Prop :=
-  PI f' x' xo' /\ (o_stopreq xo = true -> o_stopreq xo' = true) /\
-  (f' = false -> o_stopreq xo = true -> launches x' = launches x).
+  PI f' x' xo' /\ (Q f x -> Q f' x').
 
 Ltac small_type b :=
   let t := type of b in
@@ -33,10 +36,10 @@ Ltac pi_split_vars :=
   end.
 
 Ltac pi_norm_obs Hrth Hxo' Hf :=
-  unfold obs_step in Hxo'; cbn [fst snd ev_inst extra] in Hxo', Hf;
+  unfold obs_step in Hxo'; cbn [fst snd ev_inst extra1] in Hxo', Hf;
   repeat match goal with Ht : get ?th (thinst ?s) = Some _ |- _ =>
     rewrite <- ?(Hrth th) in Hxo'; rewrite <- ?(Hrth th) in Hf; rewrite ?Ht in Hxo'; rewrite ?Ht in Hf end;
-  cbv zeta in Hxo'; pi_split_vars; cbn [fst snd ev_inst extra] in Hxo', Hf;
+  cbv zeta in Hxo'; pi_split_vars; cbn [fst snd ev_inst extra1] in Hxo', Hf;
   repeat match type of Hxo' with context[if ?b then _ else _] => destruct b eqn:? end;
   autorewrite with obsn in Hxo'; cbn in Hxo'; rewrite ?get_set in Hxo'.
 
@@ -61,8 +64,9 @@ Ltac use_refl :=
 
 Ltac pi_fin Hxo Hf :=
   rewrite ?(oi_get_some _ _ _ Hxo) in Hf;
-  unfold PIstep; split_andb;
-  (split; [constructor|split]); cbn; autorewrite with obsn; cbn;
+  unfold PIstep, Q in *; split_andb;
+  repeat match goal with H : false = _ || _ |- _ => symmetry in H; apply orb_false_iff in H; destruct H end;
+  (split; [constructor|]); unfold Q; cbn; autorewrite with obsn; cbn;
   repeat match goal with |- context[if ?b then _ else _] => destruct b eqn:? end; cbn;
   rewrite ?orb_true_r, ?orb_false_r, ?andb_true_l in *; intros;
   repeat match goal with H : ?a = false, H' : ?a = false -> _ |- _ => specialize (H' H) end; use_refl;
@@ -74,17 +78,17 @@ Definition pend_at (sp : stoppc) : option iid := match sp with SPend i | SPendE 
 
 Definition PI_goal (cs : amap pconf) (s : sys) (o : obs) (th : tid) (e : event) (s' : sys) : Prop :=
   forall (f f' : bool), Rc cs s o ->
-  (f' = false -> f = false /\ extra o th e = false) ->
+  (f' = false -> f = false /\ extra1 o e = false) ->
   (forall i, pend_at (spc (get_thread s th)) = Some i -> get th (thinst s) <> Some i) ->
   (forall i x xo, pend_at (spc (get_thread s th)) = Some i -> get i (insts s) = Some x -> get i (oi o) = Some xo ->
-                  o_stopreq xo = true /\ (f = false -> launches x = 0)) ->
+                  Q f x) ->
   forall j x xo x' xo', get j (insts s) = Some x -> get j (oi o) = Some xo -> PI f x xo ->
     get j (insts s') = Some x' -> get j (oi (obs_step cs o (th, e))) = Some xo' ->
     PIstep f f' x x' xo xo'.
 
 Ltac pi_start :=
   let H := fresh "H" in
-  intros H f f' HR Hf HO HT j x xo x' xo' Hx Hxo [Pa Pc Ps Pd Pl] Hx' Hxo';
+  intros H f f' HR Hf HO HT j x xo x' xo' Hx Hxo [Pa Pc Pd Pl] Hx' Hxo';
   pose proof (rc_th _ _ _ HR) as Hrth.
 
 Ltac pi_leaf j s x :=
@@ -119,7 +123,7 @@ Context (cs : amap pconf).
 
 Lemma PI_reg s o th e s' : step_reg s th e = Some s' -> PI_goal cs s o th e s'.
 Proof.
-  intros H f f' HR Hf HO HT j x xo x' xo' Hx Hxo [Pa Pc Ps Pd Pl] Hx' Hxo'.
+  intros H f f' HR Hf HO HT j x xo x' xo' Hx Hxo [Pa Pc Pd Pl] Hx' Hxo'.
   pose proof (rc_th _ _ _ HR) as Hrth.
   destruct e; kind_cases H; pi_leaf j s x.
   all: exfalso; unfold has in E0; rewrite Hx in E0; discriminate.
